@@ -10,7 +10,7 @@ META = {
              "invariant is not vacuous. Tied to the code by real threads interning overlapping and disjoint texts concurrently through a hook, across growth of the shared block, "
              "checking exactly those conclusions on the implementation."),
     "note": ("PARTIAL: the memory ordering of the RCU/epoch library (arcu), reclamation of old blocks and the Mutex are not modelled (steps are atomic, sequentially consistent); "
-             "'same epoch' is modelled as 'no insertion since the snapshot'. The correspondence is a stress run: it samples schedules, the theorem covers all schedules of the model."),
+             "the two RCU cells are abstracted to one epoch counter bumped by every replacement: an insertion and a growth of the string block (grow_new; an oracle says at which epochs the block is full). The correspondence is a stress run: it samples schedules, the theorem covers all schedules of the model."),
     "technique": "Coq invariant proof over all schedules of the interning protocol + multi-threaded stress correspondence through a hook",
     "coq_targets": ["C32/Props.vo"], "coq_dirs": ["C21", "C32"], "props": "C32/Props.v",
     "trusted_base": ["Coq 8.16.1 kernel, vm_compute", "src/verif_hooks.rs intern_atom", "harness vrun (intern mode: one OS thread per input line, barrier start)"],
